@@ -526,10 +526,13 @@ def size_of(case):
     return (len(case["steps"]), len(json.dumps(case["steps"])), len(case["slots"]))
 
 
-def shrink(case, verdict, errors, rounds=4):
+def shrink(case, verdict, errors, rounds=4, t_end=None):
+    import time as _time
     code, reason, step = verdict
     best, bv = case, verdict
     for _ in range(rounds):
+        if t_end is not None and _time.time() > t_end:
+            break
         cands = [c for c in shrink_candidates(best, bv[2]) if size_of(c) < size_of(best)]
         if not cands:
             break
@@ -545,7 +548,7 @@ def shrink(case, verdict, errors, rounds=4):
 
 
 def run(ctx):
-    errors, mismatches, failures = [], [], []
+    errors, mismatches, failures, raw_failing = [], [], [], []
     hist = {"terminal": {}, "steps_per_session": {}, "op": {}, "layout_nodes": {}, "widget_kinds": {},
             "verdict": {}, "views_on_screen": {}, "deletes": {"all": 0, "by_z": 0, "cursor": 0},
             "redraws_with_vanished_views": 0, "non_composite_canvases": 0}
@@ -604,24 +607,39 @@ def run(ctx):
         if code == 0 and nontrivial:
             distinct.add(core.sig(c))
         if code >= 2:
-            small, sv = shrink(c, v, errors) if not ctx.replay else (c, v)
-            step = sv[2]
-            failures.append({
-                "signature": core.sig({"case": small, "reason": sv[1]}),
-                "what": f"{SPEC_REASON.get(sv[1], sv[1])} at step {step - nsetup(small)} of: {describe(small, step - nsetup(small))}",
-                "replay": {"case": small, "reason": SPEC_REASON.get(sv[1], sv[1]), "step": step - nsetup(small), "code": sv[0],
-                           "original_case": c if small is not c else None},
-            })
+            raw_failing.append((c, v))
         elif code == 1:
             mismatches.append({"case": describe(c, v[2] - nsetup(c)), "step": v[2] - nsetup(c),
                                "why": MODEL_REASON.get(v[1], str(v[1]))})
-    # one failure per distinct shrunk input
+    # shrink the smallest failing session of every kind of failure (bounded effort); the
+    # other failing sessions are counted and listed, not shrunk
+    import time as _time
+    t_end = _time.time() + (45 if ctx.quick else 240)
+    total_failing = len(raw_failing) + len(failures)
+    raw_failing.sort(key=lambda cv: size_of(cv[0]))
+    done_reasons, others = {}, []
+    for c, v in raw_failing:
+        reason = v[1]
+        if done_reasons.get(reason, 0) >= (1 if ctx.quick else 2) and not ctx.replay:
+            others.append(f"{SPEC_REASON.get(reason, reason)}: {describe(c, v[2] - nsetup(c))}"[:400])
+            continue
+        done_reasons[reason] = done_reasons.get(reason, 0) + 1
+        if ctx.replay or _time.time() > t_end:
+            small, sv = c, v
+        else:
+            small, sv = shrink(c, v, errors, rounds=4 if ctx.quick else 8, t_end=t_end)
+        step = sv[2] - nsetup(small)
+        failures.append({
+            "signature": core.sig({"case": small, "reason": sv[1]}),
+            "what": f"{SPEC_REASON.get(sv[1], sv[1])} at step {step} of: {describe(small, step)}",
+            "replay": {"case": small, "reason": SPEC_REASON.get(sv[1], sv[1]), "step": step, "code": sv[0],
+                       "original_case": c if small is not c else None},
+        })
     seen, kept = set(), []
-    for f in sorted(failures, key=lambda f: len(json.dumps(f["replay"]["case"]))):
+    for f in failures:
         if f["signature"] not in seen:
             seen.add(f["signature"])
             kept.append(f)
-    total_failing = len(failures)
     failures = kept
     if invalid > len(cases) // 3:
         errors.append(f"{invalid} of {len(cases)} generated sessions were rejected by urwid (generator too loose)")
@@ -668,5 +686,6 @@ def run(ctx):
         "trusted": ["harness/c18lex.py (urwid output -> placement-level tokens, fail-closed)",
                     "harness/tx/tx_screen.py (Python ast of draw_screen -> prog, fail-closed)",
                     "harness/impl/impl_c18.py (drives urwid widgets and the screen; reads shards with urwid's shard_body)"],
-        "extra": {"failing_sessions_total": total_failing, "generator_invalid": invalid},
+        "extra": {"failing_sessions_total": total_failing, "generator_invalid": invalid,
+                  "other_failing_sessions_not_shrunk": others[:12]},
     }
